@@ -372,6 +372,55 @@ func addBytesWithLength(b *cbBuilder, v []byte, n int) {
 }
 `
 
+// txStubs / txWanted: the sender's handshake fragmentation (dtlcp Conn.writeHandshakeRecord) over a view in which
+// the record layer below is a list: writeRecordLocked appends the payload it is given to c.sent (or fails at the
+// writeErrAt-th call), the message is a value that marshals to given bytes, the transcript collects what is written.
+// Locks are empty stub methods (the function runs under c.out's mutex: concurrency is C13's subject), the
+// `if c.config.EnableDebug { … }` printing blocks are removed (rewriteDynCases).
+var txWanted = []string{"halfConn.explicitNonceLen", "Conn.maxPayloadSizeForWrite", "Conn.writeHandshakeRecord"}
+
+const txStubs = `
+type Conn struct {
+	config     *Config
+	out        halfConn
+	sent       [][]byte // stands for the network below writeRecordLocked
+	writeErrAt int      // the call of writeRecordLocked that fails (counting from 0; negative: none)
+}
+type Config struct {
+	PMTU        int
+	EnableDebug bool
+}
+type goMsg struct {
+	data  []byte
+	fails bool
+}
+type handshakeMessage = *goMsg
+
+func (m *goMsg) marshal() ([]byte, error) {
+	if m.fails {
+		return nil, errOpaque
+	}
+	return m.data, nil
+}
+
+type goTranscript struct{ written []byte }
+type transcriptHash = *goTranscript
+
+func (t *goTranscript) Write(p []byte) (int, error) {
+	t.written = append(t.written, p...)
+	return len(p), nil
+}
+func (c *Conn) writeRecordLocked(typ recordType, data []byte) (int, error) {
+	if c.writeErrAt == len(c.sent) {
+		return 0, errOpaque
+	}
+	c.sent = append(c.sent, data)
+	return len(data), nil
+}
+func (hc *halfConn) Lock()   {}
+func (hc *halfConn) Unlock() {}
+` + viewCiphers
+
 // negStubs / negWanted: parameter negotiation (C01): version and ALPN selection over a view of Config
 var negWanted = []string{"Config.supportedVersions", "Config.mutualVersion", "negotiateALPN", "checkALPN"}
 
@@ -426,6 +475,9 @@ func prfForVersion(version uint16, suite *cipherSuite) func(result, secret, labe
 	return func(result, secret, label, seed []byte) { prf12(sm3.New)(result, secret, label, seed) }
 }
 
+` + viewCiphers
+
+const viewCiphers = `
 type halfConn struct {
 	cipher interface{} // nil, goStream, goAEAD or goCBC (the real dynamic types are library ciphers)
 	mac    goSized     // real type hash.Hash: only Size() is used
@@ -458,7 +510,7 @@ var replacedFuncs = map[string]string{
 }
 
 // viewOptional: stub fields that exist in only one of the packages
-var viewOptional = map[string]bool{"RetransmitTimer.starts": true}
+var viewOptional = map[string]bool{"RetransmitTimer.starts": true, "Conn.sent": true, "Conn.writeErrAt": true}
 
 // dynCases: type-switch case types (source text) -> the stub type that stands for them
 var dynCases = map[string]string{"cipher.Stream": "goStream", "cipher.AEAD": "goAEAD", "aead": "goAEAD", "cbcMode": "goCBC"}
@@ -473,6 +525,8 @@ var dynTypes = []string{"goStream", "goAEAD", "goCBC"}
 var loopFuel = map[string][]string{
 	// every iteration uses up a step of the script or fills the buffer
 	"pa.goTransport.readFull": {"len(r.script) + 2"},
+	// every iteration moves offset forward by at least one byte of the body
+	"dtlcp.Conn.writeHandshakeRecord": {"len(data) + 1"},
 }
 
 type decls struct {
@@ -639,7 +693,7 @@ func synth(d *decls, pkgName string, fns []string) (*token.FileSet, *ast.File, *
 // rewriteDynCases re-parses one function and replaces the case types of its type switches by
 // the stub types that stand for them (dynCases)
 func rewriteDynCases(src string) string {
-	if !strings.Contains(src, ".(type)") && !strings.Contains(src, "io.ReadFull(") && !strings.Contains(src, "cryptobyte.") {
+	if !strings.Contains(src, ".(type)") && !strings.Contains(src, "io.ReadFull(") && !strings.Contains(src, "cryptobyte.") && !strings.Contains(src, ".EnableDebug") {
 		return src
 	}
 	fset := token.NewFileSet()
@@ -647,6 +701,31 @@ func rewriteDynCases(src string) string {
 	if err != nil {
 		return src
 	}
+	// `if X.config.EnableDebug { … }` (debug printing, no else) is removed
+	var dropDebug func(list []ast.Stmt) []ast.Stmt
+	dropDebug = func(list []ast.Stmt) []ast.Stmt {
+		var outl []ast.Stmt
+		for _, st := range list {
+			if is, ok := st.(*ast.IfStmt); ok && is.Else == nil && is.Init == nil {
+				var cb bytes.Buffer
+				printer.Fprint(&cb, fset, is.Cond)
+				if strings.HasSuffix(cb.String(), ".config.EnableDebug") {
+					continue
+				}
+			}
+			outl = append(outl, st)
+		}
+		return outl
+	}
+	ast.Inspect(f, func(n ast.Node) bool {
+		switch x := n.(type) {
+		case *ast.BlockStmt:
+			x.List = dropDebug(x.List)
+		case *ast.CaseClause:
+			x.Body = dropDebug(x.Body)
+		}
+		return true
+	})
 	// cryptobyte.String  ==>  cbString (the stub type of cbStubs)
 	var fix func(e *ast.Expr)
 	fix = func(e *ast.Expr) {
@@ -2237,6 +2316,13 @@ func (t *tr) stmt(o *out, s ast.Stmt) {
 		t.switchStmt(o, x)
 	case *ast.TypeSwitchStmt:
 		t.typeSwitchStmt(o, x)
+	case *ast.DeferStmt:
+		// only `defer x.Unlock()`-style calls of EMPTY stub methods (locks are outside the model)
+		if callee, _, _ := t.plainCallee(x.Call); callee != nil && callee.decl.Body != nil && len(callee.decl.Body.List) == 0 {
+			t.emit(o, "-- omitted (empty stub): defer %s", t.src(x.Call))
+			return
+		}
+		bad("defer %s", t.src(x.Call))
 	case *ast.BranchStmt:
 		switch x.Tok {
 		case token.BREAK:
@@ -2448,6 +2534,23 @@ func (t *tr) effCall(o *out, c *ast.CallExpr) ([]string, bool) {
 	return res, true
 }
 
+// plainCallee: the translated function or method a call invokes
+func (t *tr) plainCallee(c *ast.CallExpr) (*fnMeta, []ast.Expr, ast.Expr) {
+	switch f := c.Fun.(type) {
+	case *ast.Ident:
+		if m := t.byObj[t.info.Uses[f]]; m != nil {
+			return m, c.Args, nil
+		}
+	case *ast.SelectorExpr:
+		if sel := t.info.Selections[f]; sel != nil && sel.Kind() == types.MethodVal {
+			if m := t.byObj[sel.Obj()]; m != nil {
+				return m, c.Args, f.X
+			}
+		}
+	}
+	return nil, nil, nil
+}
+
 // lvalOfArg: the variable an argument designates: `&x`, `(*T)(&x)`, `(x)` are x
 func (t *tr) lvalOfArg(arg ast.Expr) ast.Expr {
 	for {
@@ -2547,6 +2650,10 @@ func (t *tr) callStmt(o *out, c *ast.CallExpr) {
 		}
 	}
 	if _, ok := t.effCall(o, c); ok {
+		return
+	}
+	if callee, _, _ := t.plainCallee(c); callee != nil && callee.decl.Body != nil && len(callee.decl.Body.List) == 0 {
+		t.emit(o, "-- omitted (empty stub): %s", t.src(c))
 		return
 	}
 	bad("call statement %s", t.src(c))
@@ -3068,9 +3175,9 @@ func writtenSliceParams(t *tr, m *fnMeta, byName map[string]*fnMeta) []string {
 	body := m.bodyOf()
 	for _, fl := range m.paramLists() {
 		for _, p := range fl.List {
-			if _, isPtr := p.Type.(*ast.StarExpr); isPtr {
+			if _, isPtr := types.Unalias(t.info.Types[p.Type].Type).(*types.Pointer); isPtr {
 				// an out-parameter `*T` (T not a struct) is always handed back
-				if pt, ok := t.info.Types[p.Type].Type.(*types.Pointer); ok {
+				if pt, ok := types.Unalias(t.info.Types[p.Type].Type).(*types.Pointer); ok {
 					if _, isStruct := pt.Elem().Underlying().(*types.Struct); !isStruct {
 						for _, nm := range p.Names {
 							outp = append(outp, mangle(nm.Name))
@@ -3296,7 +3403,7 @@ func (t *tr) function(m *fnMeta) (text string, err error) {
 }
 
 func isStructPtr(ty types.Type) bool {
-	p, ok := ty.(*types.Pointer)
+	p, ok := types.Unalias(ty).(*types.Pointer)
 	if !ok {
 		return false
 	}
@@ -3381,7 +3488,8 @@ type group struct {
 }
 
 func allGroups() []group {
-	gs := []group{{pkg: "pa", stubs: paStubs, funcs: paWanted, nilIsEmpty: true}}
+	gs := []group{{pkg: "pa", stubs: paStubs, funcs: paWanted, nilIsEmpty: true},
+		{pkg: "dtlcp", sub: "tx", stubs: txStubs, funcs: txWanted}}
 	for _, name := range pkgOrder {
 		gs = append(gs, group{pkg: name, stubs: viewStubs[name], funcs: wanted[name]})
 		gs = append(gs, group{pkg: name, sub: "rx", stubs: rxStubs, funcs: rxWanted[name]})
